@@ -87,6 +87,47 @@ func NewRep(idx int, typ string) *Rep {
 	return &Rep{Idx: idx, Typ: typ, Cli: c, DT: dt, W: w, Sent: 1}
 }
 
+const uidAlphabet = "_-0123456789abcdefghijklmnopqrstuvwxyzABCDEFGHIJKLMNOPQRSTUVWXYZ"
+
+// SeededCUID draws a client id of the real alphabet and length from a PRNG.
+func SeededCUID(r interface{ Intn(int) int }) string {
+	b := make([]byte, 16)
+	for i := range b {
+		b[i] = uidAlphabet[r.Intn(len(uidAlphabet))]
+	}
+	return string(b)
+}
+
+// NewRepCUID creates a replica whose client id is chosen by the harness (so that the tie
+// breaks of a case are a function of its seed and replay files reproduce): the id is
+// installed through GetMeta/SetMeta, the mechanism snapshot restore itself uses, before
+// any operation other than the creation snapshot operation exists.
+func NewRepCUID(idx int, typ string, cuid string) *Rep {
+	r := NewRep(idx, typ)
+	meta, err := r.W.GetMeta()
+	if err != nil {
+		panic(err)
+	}
+	var m map[string]interface{}
+	if err := json.Unmarshal(meta, &m); err != nil {
+		panic(err)
+	}
+	opid, _ := m["opID"].(map[string]interface{})
+	if opid == nil {
+		panic("meta without opID: " + string(meta))
+	}
+	opid["c"] = cuid
+	nm, _ := json.Marshal(m)
+	if err := r.W.SetMeta(nm); err != nil {
+		panic(err)
+	}
+	r.ResetTransaction()
+	if r.W.GetCUID() != cuid {
+		panic("cuid not installed: " + string(nm))
+	}
+	return r
+}
+
 // CUID returns the replica's client id.
 func (r *Rep) CUID() string { return r.W.GetCUID() }
 
